@@ -199,6 +199,7 @@ MAP_ORIGINS = {
     'DefaultDict': (typing.DefaultDict, collections.defaultdict),
     'OrderedDict': (collections.OrderedDict, collections.OrderedDict),
     'TOrderedDict': (typing.OrderedDict, collections.OrderedDict),
+    'ChainMap': (collections.ChainMap, collections.ChainMap), 'TChainMap': (typing.ChainMap, collections.ChainMap),
 }
 # Quasi-iterables: item-checked only when the object is a collection.
 ITER_ORIGINS = {
@@ -386,6 +387,10 @@ def build_obj(o, env=None):
         return d
     if k == 'odict':
         return collections.OrderedDict((build_obj(a, env), build_obj(b, env)) for a, b in o['i'])
+    if k == 'chainmap':
+        # two child maps: the first holds every second pair, the second all of them (lookups fall through)
+        pairs = [(build_obj(a, env), build_obj(b, env)) for a, b in o['i']]
+        return collections.ChainMap(dict(pairs[::2]), dict(pairs))
     if k == 'counter':
         c = collections.Counter()
         for a, b in o['i']:
@@ -869,7 +874,7 @@ def gen_any_obj(rng, depth=2, hashable=False):
         return o
     n = rng.randint(0, 4)
     kinds = ['tuple', 'frozenset'] if hashable else ['list', 'tuple', 'set', 'frozenset', 'deque', 'dict',
-                                                       'defaultdict', 'odict', 'counter', 'keys', 'values',
+                                                       'defaultdict', 'odict', 'chainmap', 'counter', 'keys', 'values',
                                                        'box', 'listbox', 'pair', 'iterator', 'generator']
     k = rng.choice(kinds)
     if k in ('list', 'tuple', 'deque', 'box', 'listbox', 'iterator', 'generator'):
@@ -993,8 +998,10 @@ def gen_conforming(rng, h, maxlen=4, env=None, depth=0):
             kind = 'defaultdict'
         elif oc is collections.OrderedDict:
             kind = 'odict'
+        elif oc is collections.ChainMap:
+            kind = 'chainmap'
         else:
-            kind = rng.choice(['dict', 'odict', 'defaultdict'])
+            kind = rng.choice(['dict', 'odict', 'defaultdict', 'chainmap'])
         ks = [kk for kk in _gen_items(rng, h['a'][0], n, maxlen, env, depth, hashable=True) if _hashable(kk, env)]
         items = _dedupe_items([[kk, gen_conforming(rng, h['a'][1], maxlen, env, depth + 1)] for kk in ks])
         return {'o': kind, 'i': items}
